@@ -983,6 +983,8 @@ where
             }))
           }
           Err(TrySendError::Full(wc)) => {
+            #[cfg(rustdds_verif)]
+            crate::verif_hooks::sched::yield_point("dw.write_full");
             *self.writer.cc_upload_waker.lock().unwrap() = Some(cx.waker().clone());
             if Instant::now() < self.timeout_instant {
               // Put our command back
